@@ -126,11 +126,13 @@ PROPS["C08"] = {
              "replaced iff not cached by name and nothing overlapped is newer; then exactly the overlapping regions are evicted and "
              "marked dead and the new one cached; otherwise cache unchanged and nothing marked dead; invariant preserved. Covers "
              "histories of any length that stay within K live regions.",
-    "outside": "more than K cached regions at the moment of the operation; keys longer than KL bytes; B-tree page splits (>32 entries)",
+    "outside": "more than K cached regions at the moment of the operation; keys longer than KL bytes (1 byte in the quick tier; 2 bytes in the thorough-only job cache_put_longkeys); B-tree page splits (>32 entries)",
     "assumptions": ["pre-states satisfy the representation invariant (they are built directly in the tree, sorted by the tree itself)"],
     "jobs": [
         {"name": "cache_put", "pkg": "root", "entry": "VerifCachePut", "reach": ["replaced", "rejected", "already-cached"],
          "params": {"quick": {"K": 2, "KL": 1, "T": 2}, "thorough": {"K": 3, "KL": 1, "T": 3}}},
+        {"name": "cache_put_longkeys", "pkg": "root", "entry": "VerifCachePut", "reach": ["replaced", "rejected", "already-cached"],
+         "params": {"thorough": {"K": 2, "KL": 2, "T": 1}}},
         {"name": "cache_put_concurrent", "pkg": "root", "entry": "VerifCachePutConcurrent", "reach": ["raced"],
          "preempts": {"quick": 2, "thorough": 3}, "params": {"quick": {}, "thorough": {}}},
         {"name": "cache_del", "pkg": "root", "entry": "VerifCacheDel", "reach": ["deleted"],
@@ -153,6 +155,8 @@ PROPS["C01"] = {
     "jobs": [
         {"name": "route_from_cache", "pkg": "root", "entry": "VerifRouteFromCache", "reach": ["hit", "miss"],
          "params": {"quick": {"K": 2, "KL": 1, "T": 2, "KEYL": 2}, "thorough": {"K": 3, "KL": 1, "T": 3, "KEYL": 2}}},
+        {"name": "route_from_cache_longkeys", "pkg": "root", "entry": "VerifRouteFromCache", "reach": ["hit", "miss"],
+         "params": {"quick": {"K": 2, "KL": 2, "T": 1, "KEYL": 2}, "thorough": {"K": 2, "KL": 2, "T": 2, "KEYL": 3}}},
         {"name": "addressing", "pkg": "root", "entry": "VerifAddressing", "reach": ["addressed"],
          "params": {"quick": {"KL": 2, "KEYL": 3}, "thorough": {"KL": 3, "KEYL": 4}}},
         {"name": "meta_lookup", "pkg": "root", "entry": "VerifMetaLookup", "reach": ["accepted", "rejected", "not-found"],
